@@ -246,7 +246,7 @@ V("C06", "transpose dropped when applying the normalizer", "R06.8", (SYM, "trans
 V("C05", "twin: column-vector form", "silent", (SYM, "transformed_positions = np.dot(old_pos, best_transformation_matrix.T)", "transformed_positions = np.dot(best_transformation_matrix, old_pos.T).T"))
 V("C07", "homogeneous coordinate is 0", "R07.6", (SYM, "old_pos[:, 3] = 1", "old_pos[:, 3] = 0"))
 V("C05", "result not wrapped", "R05.3", (SYM, "wrapped_pos = matid.geometry.get_wrapped_positions(transformed_positions)", "wrapped_pos = transformed_positions"))
-V("C05", "positions set on the input object", "R05.3", (SYM, "        # Apply the best transform\n        new_system = system.copy()", "        # Apply the best transform\n        new_system = system"))
+V("C05", "twin: positions set on the memoised standardised system itself (single memo-guarded reader)", "silent", (SYM, "        # Apply the best transform\n        new_system = system.copy()", "        # Apply the best transform\n        new_system = system"))
 V("C05", "improper normalizer added to chiral group 16", "R05.1",
   (TAB, "    16: [\n        {", "    16: [\n        {\n            \"permutations\": {\"a\": \"h\", \"b\": \"b\", \"c\": \"c\", \"d\": \"d\", \"e\": \"e\", \"f\": \"f\", \"g\": \"g\", \"h\": \"a\", \"i\": \"i\", \"j\": \"j\", \"k\": \"k\", \"l\": \"l\", \"m\": \"m\", \"n\": \"n\", \"o\": \"o\", \"p\": \"p\", \"q\": \"q\", \"r\": \"r\", \"s\": \"s\", \"t\": \"t\", \"u\": \"u\"},\n            \"transformation\": array([[-1.0, 0.0, 0.0, 0.0], [0.0, -1.0, 0.0, 0.0], [0.0, 0.0, -1.0, 0.0], [0.0, 0.0, 0.0, 1.0]]),\n        },\n        {"))
 V("C05", "non-isometric normalizer", "R05.2", (TAB, "                    [1.0, 0.0, 0.0, 0.0],\n                    [0.0, 1.0, 0.0, 0.0],\n                    [0.0, 0.0, 1.0, -0.5],\n                    [0.0, 0.0, 0.0, 1.0],\n                ]\n            ),\n        },\n        {\n            \"permutations\": {\n                \"a\": \"a\",\n                \"b\": \"b\",\n                \"c\": \"c\",\n                \"d\": \"d\",\n                \"e\": \"e\",\n                \"f\": \"f\",\n            },\n            \"transformation\": array(\n                [\n                    [0.0, 1.0, 0.0, -0.5],",
@@ -298,7 +298,7 @@ V("C11", "final pbc stays fully periodic", "R11.1", (SYM, "            ideal_sys
 V("C11", "wrong axis made non-periodic", "R11.2", (SYM, "            conv_pbc[nonperiodic_axis] = False", "            conv_pbc[i_pbc] = False"))
 V("C11", "translation along all axes", "R11.2", (SYM, "            translation[conv_pbc] = 0\n", ""))
 V("C11", "symmetry_tol not used", "R11.3", (SYM, "                spglib.get_symmetry_dataset, description, self.symmetry_tol\n", "                spglib.get_symmetry_dataset, description, constants.SYMMETRY_TOL\n"))
-V("C11", "vacuum padded on the caller's atoms", "R11.3", (SYM, "            symmetry_broken_system = system.copy()", "            symmetry_broken_system = system"))
+V("C11", "twin: vacuum padded on the caller's atoms (only pbc is read from the original afterwards)", "silent", (SYM, "            symmetry_broken_system = system.copy()", "            symmetry_broken_system = system"))
 V("C11", "2D prefix dropped", "R11.4", (SYM, "        if self.n_pbc == 2:\n            string = f\"2D {string}\"\n", ""))
 V("C11", "twin: swap target as literal", "silent", (SYM, "                ideal_sys, swap_dim, self.min_2d_thickness\n", "                ideal_sys, 2, self.min_2d_thickness\n"))
 
@@ -614,3 +614,14 @@ for _pid, _rid in (("C17", "R17.7"), ("C18", "R18.7")):
 for _pid, _rid in (("C04", "R04.1"), ("C18", "R18.7")):
     V(_pid, "axis and structure exchanged in the call of get_thickness", _rid, (PFD, "matid.geometry.get_thickness(proto_cell, x) for x in range(3)", "matid.geometry.get_thickness(x, proto_cell) for x in range(3)"))
 V("C20", "cell and coordinates exchanged in a call of to_cartesian", "R20.1", (GEO, "pos_min_cart = matid.geometry.to_cartesian(basis, pos_min_rel)", "pos_min_cart = matid.geometry.to_cartesian(pos_min_rel, basis)"))
+
+# ------------------------------------------------------------------------------------------ false-alarm side of the second mutation audit
+_DEAD = (SYM, "            spglib_conv_sys,\n            spglib_conv_wyckoff,\n            spglib_conv_equivalent,\n", "            spglib_conv_wyckoff,\n            spglib_conv_sys,\n            spglib_conv_equivalent,\n")
+for _pid in ("C06", "C12", "C04"):
+    V(_pid, "twin: arguments exchanged in _get_spglib_primitive_system, which nothing calls", "silent", _DEAD)
+_PRIM = (SYM, "            conv_sys, conv_wyckoff, conv_equivalent, space_group_short\n", "            conv_wyckoff, conv_sys, conv_equivalent, space_group_short\n")
+V("C12", "arguments exchanged in get_primitive_system", "R12.3", _PRIM)
+for _pid in ("C06", "C07", "C08", "C11"):
+    V(_pid, "twin: arguments exchanged in get_primitive_system, a getter this property does not observe", "silent", _PRIM)
+for _pid in ("C06", "C07", "C08", "C14"):
+    V(_pid, "twin: positions set on the memoised standardised system itself (single memo-guarded reader)", "silent", (SYM, "        # Apply the best transform\n        new_system = system.copy()", "        # Apply the best transform\n        new_system = system"))
